@@ -1,6 +1,6 @@
 SPECIFICATION Spec
 CONSTANTS
-  Dests = {"A","B","D"}
+  Dests = {"A","B","C","D"}
   Sizes = {200}
   EventMax = 1000000
   BodyMax = 5000000
@@ -8,8 +8,8 @@ CONSTANTS
   Sub = 1
   MaxEvents = 3
   MaxNow = 5
-  MaxFaults = 1
-  Behaviours = {"ok","e500"}
+  MaxFaults = 0
+  Behaviours = {"ok"}
   Coarse = TRUE
   Loose = FALSE
 INVARIANTS TypeOK OwnDestination ExactlyOneBatch OversizeCounted BodyWithinLimit CountWithinLimit AtMostTwice Timely StopFlushes GaugeExact Conservation
